@@ -18,7 +18,7 @@ OBLIGATIONS = [
     "C03/P_nonvacuous.v",
 ]
 REFUTATIONS = ['C03/P_refuted.v']
-PROOF_MODULES = []   # compiled by hand until listed in coq/_CoqProject (see the report)
+PROOF_MODULES = A.PROOF_MODULES
 
 CORPUS_API = [
     "(f1 sign (c 1 1 2 1))", "(f1 ceiling (add (f1 floor x) (i 1)))", "(pow (i 0) nan)", "(pow nan (i 0))",
